@@ -14,12 +14,16 @@ pub enum StackItem {
 /// VM events, in program order per thread.
 #[derive(Clone, Debug)]
 pub enum Event {
-    /// A `run_raw` activation starts. `guard` is the depth counter after the increment.
+    /// A `run_raw` activation starts. `guard` is the depth counter after the increment,
+    /// `params` the bindings of the watched names in this activation, `detached` whether the
+    /// interpreter has neither a context nor bindings.
     Enter {
         frame: u64,
         parent: u64,
         guard: usize,
         code: Vec<ByteCode>,
+        params: Vec<(String, CelValue)>,
+        detached: bool,
     },
     /// About to execute the instruction at `pc` with the given operand stack.
     Step {
@@ -36,10 +40,13 @@ thread_local! {
     static FRAMES: RefCell<Vec<u64>> = RefCell::new(Vec::new());
     static NEXT: Cell<u64> = Cell::new(0);
     static LIMIT: Cell<usize> = Cell::new(usize::MAX);
+    static NAMES: RefCell<Vec<String>> = RefCell::new(Vec::new());
 }
 
-/// Start recording on this thread (at most `limit` events are kept).
-pub fn install(limit: usize) {
+/// Start recording on this thread (at most `limit` events are kept). The bindings of
+/// `names` are recorded for every activation.
+pub fn install(limit: usize, names: Vec<String>) {
+    NAMES.with(|n| *n.borrow_mut() = names);
     SINK.with(|s| *s.borrow_mut() = Some(Vec::new()));
     FRAMES.with(|f| f.borrow_mut().clear());
     NEXT.with(|n| n.set(0));
@@ -73,7 +80,12 @@ pub struct FrameGuard {
 }
 
 impl FrameGuard {
-    pub fn enter(guard: usize, code: impl FnOnce() -> Vec<ByteCode>) -> FrameGuard {
+    pub fn enter(
+        guard: usize,
+        detached: bool,
+        code: impl FnOnce() -> Vec<ByteCode>,
+        lookup: impl Fn(&str) -> Option<CelValue>,
+    ) -> FrameGuard {
         if !active() {
             return FrameGuard { id: 0, on: false };
         }
@@ -88,6 +100,13 @@ impl FrameGuard {
             parent,
             guard,
             code: code(),
+            params: NAMES.with(|n| {
+                n.borrow()
+                    .iter()
+                    .filter_map(|k| lookup(k).map(|v| (k.clone(), v)))
+                    .collect()
+            }),
+            detached,
         });
         FrameGuard { id, on: true }
     }
